@@ -61,7 +61,8 @@ def payload(code, bs):
 def harness(job, ch):
     _, tls, bs, si = job[:4]
     script = SCRIPTS[si].split()
-    w = tcpsys.TcpWorld(ch, tls=tls, bs=bs, wirelog=True,
+    app_rx, app_tx = bytearray(), bytearray()      # application-supplied (initially empty) buffers, as http.Client passes them
+    w = tcpsys.TcpWorld(ch, tls=tls, bs=bs, wirelog=True, client_kwa=dict(rxbs=app_rx, txbs=app_tx),
                         policy=tcpsys.XPolicy(ch, partial=True, faults=(), wants=tls))
     viol = []
     states = []
@@ -73,7 +74,7 @@ def harness(job, ch):
         def check(stage):
             rem = w.remoter_of(0)
             srx = bytes(rem.rxbs) if rem is not None else b""
-            crx = bytes(client.rxbs)
+            crx = bytes(app_rx)
             if not bytes(ctx).startswith(srx):
                 viol.append(("prefix:client-to-server:%s" % ("tls" if tls else "plain"),
                              "%s: server received %r, client transmitted %r" % (stage, srx[:40], bytes(ctx)[:40])))
@@ -105,7 +106,10 @@ def harness(job, ch):
                 check("round %d" % k)
             elif step[0] == "C":
                 p = payload(step[1], bs)
-                client.tx(p)
+                if k % 2:
+                    app_tx.extend(p)        # the application fills the transmit buffer it supplied
+                else:
+                    client.tx(p)
                 ctx.extend(p)
             elif step[0] == "S":
                 rem = None
@@ -137,9 +141,9 @@ def harness(job, ch):
                 if srx != bytes(ctx) or client.txbs:
                     viol.append(("liveness:client-to-server:%s" % ("tls" if tls else "plain"),
                                  "after %d healthy rounds server has %d of %d bytes, client txbs %d" % (need, len(srx), len(ctx), len(client.txbs))))
-                if bytes(client.rxbs) != bytes(stx) or (rem is not None and rem.txbs):
+                if bytes(app_rx) != bytes(stx) or (rem is not None and rem.txbs):
                     viol.append(("liveness:server-to-client:%s" % ("tls" if tls else "plain"),
-                                 "after %d healthy rounds client has %d of %d bytes" % (need, len(client.rxbs), len(stx))))
+                                 "after %d healthy rounds client has %d of %d bytes" % (need, len(app_rx), len(stx))))
         for where, site, name in w.escaped:
             viol.append(("raises:%s:%s" % (name, site), "%s raised %s at %s without any fault injected" % (where, name, site)))
         obs = (tuple(states), tuple(w.net.log[-30:]))
